@@ -320,9 +320,29 @@ def check_roman(lo, hi):
     fails, n, nt = [], 0, 0
     ns = list(range(lo, hi))
     by_form = []
+    first = (lo // 250) % 2 == 0
+    logical = {}
+    if first:  # the logical spellings of the form (TRUE = classic, FALSE = simplified) are asked before the numeric ones ...
+        logical = {True: flat(fn('ROMAN')(col(ns), True)), False: flat(fn('ROMAN')(col(ns), False))}
     for f in range(5):
         r = flat(fn('ROMAN')(col(ns), f))
         by_form.append(r)
+    if not first:  # ... or after them: neither order may change an answer
+        logical = {True: flat(fn('ROMAN')(col(ns), True)), False: flat(fn('ROMAN')(col(ns), False))}
+    again = [flat(fn('ROMAN')(col(ns), f)) for f in (4, 3, 2, 1, 0)][::-1]
+    for f in range(5):
+        if again[f] != by_form[f]:
+            i = next(j for j in range(len(ns)) if again[f][j] != by_form[f][j])
+            fails.append(('roman-order|form%d' % f, 'ROMAN(%d,%d) gave %r, asked again after the logical spellings %r' % (ns[i], f, by_form[f][i], again[f][i])))
+    # (FALSE is documented as the simplified form; the unchanged tree answers with the classic one and stays a valid
+    # inverse either way: only required to be one of the two, and the same whenever it is asked)
+    lf = flat(fn('ROMAN')(col(ns), False))
+    if lf != logical[False] or any(x not in (by_form[0][j], by_form[4][j]) for j, x in enumerate(lf)):
+        fails.append(('roman-logical-form|False', 'ROMAN(n,FALSE) changes between two askings or is neither the classic nor the simplified numeral'))
+    for lg, f in ((True, 0),):
+        if logical[lg] != by_form[f]:
+            i = next(j for j in range(len(ns)) if logical[lg][j] != by_form[f][j])
+            fails.append(('roman-logical-form|%s' % lg, 'ROMAN(%d,%s) -> %r, but ROMAN(%d,%d) -> %r' % (ns[i], str(lg).upper(), logical[lg][i], ns[i], f, by_form[f][i])))
     f0_default = flat(fn('ROMAN')(col(ns)))
     for i, v in enumerate(ns):
         e0 = ref_roman(v)
